@@ -5,10 +5,9 @@ set_option linter.unusedSimpArgs false
 namespace Jade.Sys
 
 set_option maxHeartbeats 64000000 in
-theorem nodeW_step_a {s s' : Sys} {op : Op} (hn : NodeInv s) (hi : NodeW s) (h : step s op = some s') :
-    (∀ p a n, s'.procs p = .node a n → ∀ j ∈ n.queued, j ∉ n.running) ∧
-    (∀ B ∈ s'.batches, ∀ h, B.hid = some h → s'.slurm h = some .pending →
-    ∀ j ∈ B.jobs, ∀ c : Bid, ∀ r ∈ s'.nodeFile c, r.job ≠ j) := by
+theorem nodeW_step_c {s s' : Sys} {op : Op} (hn : NodeInv s) (hi : NodeW s) (h : step s op = some s') :
+    (∀ p a n, s'.procs p = .node a n → ∀ j ∈ n.running, ∀ c : Bid, ∀ r ∈ s'.nodeFile c, r.job ≠ j) ∧
+    (UniqN s'.nodeFile) := by
   have hu := @node_job_unique s hn
   have hm := @mem_unique_batch s.batches hn.batch.jobsNodup
   have hfr := @ns_not_batched s hn.batch
